@@ -379,7 +379,7 @@ if __name__ == '__main__':
         print('UNDECIDED:', e)
         sys.exit(2)
     obs = enumerate_obligations(b['unit'], b['woven'], b['items'])
-    r = run_verus(b['path'], rlimit=float(sys.argv[2]) if len(sys.argv) > 2 else None)
+    r = run_verus(b['path'], rlimit=float(sys.argv[2]) if len(sys.argv) > 2 else None, extra=os.environ.get('VERUS_EXTRA', '').split() or None)
     errs = parse_errors(r['stderr'])
     vf, ro, comp = classify(errs)
     print(r['cmd'], 'rc=%d wall=%.1fs' % (r['rc'], r['wall']))
